@@ -119,8 +119,20 @@ struct Minimiser {
     std::string file_state;   // the situation must stay the same one (truncated / complete), not only the clause
     int evals = 0;
     Eval last;
+    // wall-clock bound on the whole minimisation: every evaluation of a plan that hangs costs its full
+    // watchdog time, and a replay file that is less small is better than a check that takes hours
+    double deadline = 0;
+    static double now_s() {
+        struct timespec ts;
+        clock_gettime(CLOCK_MONOTONIC, &ts);
+        return (double)ts.tv_sec + 1e-9 * (double)ts.tv_nsec;
+    }
     bool test(const J& plan) {
         if (evals >= budget) return false;
+        if (deadline > 0 && now_s() > deadline && evals > 0) {
+            budget = evals;  // stops every loop that looks at the budget
+            return false;
+        }
         evals++;
         Eval ev = evaluate(plan);
         for (size_t i = 0; i < ev.sigs.size(); i++)
@@ -173,6 +185,7 @@ struct Minimiser {
 inline Result minimise(const J& plan0, const std::string& sig, const J& context0, int budget) {
     Result R;
     Minimiser M{sig, budget, context0.gets("file_state")};
+    M.deadline = Minimiser::now_s() + (getenv("GDSIM_MINIMISE_SECONDS") ? atof(getenv("GDSIM_MINIMISE_SECONDS")) : 420.0);
     J plan = plan0;
     R.ops_before = (int64_t)plan.at("ops").a.size();
     R.weight_before = plan_weight(plan);
@@ -328,6 +341,7 @@ inline Result minimise(const J& plan0, const std::string& sig, const J& context0
     }
     // final confirmation run gives the hash and detail recorded in the replay file
     M.budget = M.evals + 1;
+    M.deadline = 0;
     if (M.test(plan)) {
         R.hash_struct = M.last.hash_struct;
         R.detail = M.last.details.empty() ? "" : M.last.details[0];
